@@ -21,17 +21,18 @@ const unsupported = msg => { throw new Abort('unsupported', msg); };
 
 // ---------------------------------------------------------------- solver bridge
 class Solver {
-  constructor(bin, timeoutMs) {
+  constructor(bin, timeoutMs, rlimit, maxLifeS) {
     this.dir = fs.mkdtempSync(path.join(os.tmpdir(), 'jsx-'));
     const fin = path.join(this.dir, 'in'), fout = path.join(this.dir, 'out');
     cp.execFileSync('mkfifo', [fin, fout]);
-    this.proc = cp.spawn('sh', ['-c', 'exec ' + bin + ' -in < ' + fin + ' > ' + fout + ' 2>&1'], { stdio: 'ignore' });
+    this.proc = cp.spawn('sh', ['-c', 'exec timeout -k 2 ' + (maxLifeS || 3600) + ' ' + bin + ' -in < ' + fin + ' > ' + fout + ' 2>&1'], { stdio: 'ignore' });
     this.w = fs.openSync(fin, 'w');
     this.r = fs.openSync(fout, 'r');
     this.buf = '';
     this.queries = 0; this.solverMs = 0; this.errors = [];
     this.log = null;
     this.send('(set-option :timeout ' + (timeoutMs || 10000) + ')');
+    this.send('(set-option :rlimit ' + (rlimit || 40000000) + ')');
     this.send(PRELUDE_SMT);
   }
   send(text) { if (this.log) this.log.push(text); fs.writeSync(this.w, text + '\n'); }
@@ -257,13 +258,16 @@ const RT = {
     if (r.lo === r.hi) return Number(r.lo);
     const out = new SNum('i', this.def('Int', r.t), r.lo, r.hi, r.tz || 0);
     if (r.bf) out.bf = r.bf;
+    if (r.m32) out.m32 = r.m32;
     return out;
   },
 
   // ---- 32-bit coercions on integer views
+  // m32: a (simpler) term congruent to the value modulo 2^32; 32-bit coercions and int2bv only depend on that class
   toInt32(a) {
     if (a.lo >= -P31 && a.hi < P31) return a;
-    return { t: '(w32 ' + a.t + ')', lo: -P31, hi: P31 - 1n, tz: Math.min(a.tz || 0, 32) };
+    const m = a.m32 || a.t;
+    return { t: '(w32 ' + m + ')', lo: -P31, hi: P31 - 1n, tz: Math.min(a.tz || 0, 32), m32: m };
   },
   // bits [sh, sh+len) of a value whose 32-bit pattern is a bit-field of a 64-bit input (tracked in .bf)
   fieldView(bf, sh, len) {
@@ -280,13 +284,15 @@ const RT = {
   toUint32(a) {
     if (a.bf && !a.bf.exact) return this.fieldView(a.bf, 0, 32);
     if (a.lo >= 0n && a.hi < P32) return a;
-    if (a.lo >= -P32 && a.hi < 0n) return { t: '(+ ' + a.t + ' 4294967296)', lo: a.lo + P32, hi: a.hi + P32, tz: Math.min(a.tz || 0, 32) };
-    return { t: '(u32 ' + a.t + ')', lo: 0n, hi: P32 - 1n, tz: Math.min(a.tz || 0, 32) };
+    if (a.lo >= -P32 && a.hi < 0n && !a.m32) return { t: '(+ ' + a.t + ' 4294967296)', lo: a.lo + P32, hi: a.hi + P32, tz: Math.min(a.tz || 0, 32), m32: a.t };
+    const m = a.m32 || a.t;
+    return { t: '(u32 ' + m + ')', lo: 0n, hi: P32 - 1n, tz: Math.min(a.tz || 0, 32), m32: m };
   },
   bvOp(op, a, b) { // a, b int32 views
-    const A = '((_ int2bv 32) ' + a.t + ')', Bt = '((_ int2bv 32) ' + b.t + ')';
+    const A = '((_ int2bv 32) ' + (a.m32 || a.t) + ')', Bt = '((_ int2bv 32) ' + (b.m32 || b.t) + ')';
     this.st.flags.bv = true;
-    return { t: '(s32of (bv2int (' + op + ' ' + A + ' ' + Bt + ')))', lo: -P31, hi: P31 - 1n, tz: 0 };
+    const u = this.def('Int', '(bv2int (' + op + ' ' + A + ' ' + Bt + '))');
+    return { t: '(s32of ' + u + ')', lo: -P31, hi: P31 - 1n, tz: 0, m32: u };
   },
   andI(a, b) { // ToInt32 views
     if (b.c && !a.c) { const t = a; a = b; b = t; }
@@ -788,6 +794,10 @@ const RT = {
     this.p(o, k, nv);
     return prefix ? this.g(o, k) : old;
   },
+  sm(o, name, args) { // method call that may be a String method on a concrete string with symbolic arguments
+    if (typeof o === 'string' && args.some(isSym)) o = new SStr(this.strView(o));
+    return o[name](...args);
+  },
   mc(o, k, args) {
     if (isSym(k)) k = this.k(k);
     const f = this.g(o, k);
@@ -925,7 +935,7 @@ const RT = {
     if (name.startsWith('Nondet')) {
       const kind = name.slice(6);
       const id = this.concrete(args[0]);
-      return this.nondet(kind, id, args.slice(1).map(x => this.concrete(x)), env);
+      return this.nondet(kind, id, args.slice(1).map(x => (x !== null && typeof x === 'object' && !isSym(x)) ? x : this.concrete(x)), env);
     }
     if (name.startsWith('VerifOut')) { st.obs.push({ k: 'out', args: args.map(a => serialise(a)) }); return; }
     if (name === 'VerifAssume') {
@@ -978,6 +988,13 @@ const RT = {
       this.declareInput(name, 'Int', big(extra[0]), big(extra[1]));
       return new SNum('i', name, big(extra[0]), big(extra[1]), 0);
     }
+    if (kind === 'Int64R' || kind === 'Uint64R') {
+      const f = o => (typeof o === 'number' ? big(o) : big(o.$high) * P32 + big(o.$low));
+      const v = this.nondet(kind.slice(0, -1), id, [], env);
+      this.st.inputs[name + '_range'] = { sort: 'Bool', def: '(and (<= ' + lit(f(extra[0])) + ' ' + name + ') (<= ' + name + ' ' + lit(f(extra[1])) + '))', assert: true };
+      this.solver.send('(assert (and (<= ' + lit(f(extra[0])) + ' ' + name + ') (<= ' + name + ' ' + lit(f(extra[1])) + ')))');
+      return v;
+    }
     if (kind === 'Int64' || kind === 'Uint64') {
       // the input is declared through four 16-bit limbs so that limb arithmetic ($mul64) sees plain variables
       const signed = kind === 'Int64';
@@ -991,6 +1008,7 @@ const RT = {
       const bfu = this.def('Int', u);
       o.$high = signed ? new SNum('i', this.def('Int', '(s32of ' + hu + ')'), -P31, P31 - 1n, 0) : new SNum('i', hu, 0n, P32 - 1n, 0);
       o.$high.bf = { limbs, u: bfu, s: 32, w: 32, exact: !signed };
+      if (signed) o.$high.m32 = hu;
       o.$low = new SNum('i', '(+ ' + limbs[0] + ' (* 65536 ' + limbs[1] + '))', 0n, P32 - 1n, 0);
       o.$low.bf = { limbs, u: bfu, s: 0, w: 32, exact: true };
       o.$val = o;
@@ -1229,7 +1247,7 @@ function explore(instrumentedCode, cfg) {
   RT.cfg = cfg;
   RT.TA = {}; for (const n of Object.keys(TA_KINDS)) RT.TA[n] = makeTA(n);
   const compiled = new Function(...PARAMS, instrumentedCode);
-  const solver = RT.solver = new Solver(cfg.solver, cfg.timeoutMs);
+  const solver = RT.solver = new Solver(cfg.solver, cfg.timeoutMs, cfg.rlimit, Math.ceil(cfg.maxWallMs / 1000) + 120);
   RT.pending = [[]];
   const paths = [];
   let truncated = false;
